@@ -436,6 +436,64 @@ fn typed_entry(
     ))
 }
 
+/// Every property of the entry at `idx` read through the typed property builders, the builder type being found by
+/// trying them in turn (no schema needed): name -> value in the format of `entry_json`, or "ERR: ..." .
+pub fn typed_values_any(
+    store: &jbk::reader::EntryStore,
+    vs: &jbk::reader::ValueStorage,
+    idx: jbk::EntryIdx,
+) -> Option<serde_json::Map<String, J>> {
+    use jbk::reader::builder::{
+        ArrayProperty, ContentProperty, IntProperty, PropertyBuilderTrait, SignedProperty,
+    };
+    let reader = store.get_entry_reader(idx)?;
+    let layout = store.layout();
+    let mut vals = serde_json::Map::new();
+    macro_rules! read_all {
+        ($props:expr) => {
+            for (name, lp) in $props.iter() {
+                let r = (|| -> Result<J, String> {
+                    let e = |e: jbk::Error| format!("ERR: {e}");
+                    if let Some(b) = lp.as_builder::<IntProperty, _>(vs).map_err(e)? {
+                        return Ok(json!({"u": b.create(&reader).map_err(e)?}));
+                    }
+                    if let Some(b) = lp.as_builder::<SignedProperty, _>(vs).map_err(e)? {
+                        return Ok(json!({"s": b.create(&reader).map_err(e)?}));
+                    }
+                    if let Some(b) = lp.as_builder::<ArrayProperty, _>(vs).map_err(e)? {
+                        let mut out = jbk::SmallBytes::new();
+                        b.create(&reader).map_err(e)?.resolve_to_vec(&mut out).map_err(e)?;
+                        return Ok(json!({"a": out.to_vec()}));
+                    }
+                    if let Some(b) = lp.as_builder::<ContentProperty, _>(vs).map_err(e)? {
+                        let c = b.create(&reader).map_err(e)?;
+                        return Ok(json!({"c": [c.pack_id.into_u16(), c.content_id.into_u32()]}));
+                    }
+                    Err("ERR: no typed builder accepts this property".to_string())
+                })();
+                vals.insert(name.as_str().to_string(), match r {
+                    Ok(v) => v,
+                    Err(e) => json!(e),
+                });
+            }
+        };
+    }
+    read_all!(&layout.common);
+    if let Some(vp) = &layout.variant_part {
+        match vp.as_builder().create(&reader) {
+            Ok(vid) => {
+                if let Some(props) = vp.variants.get(vid.into_u8() as usize) {
+                    read_all!(props);
+                }
+            }
+            Err(e) => {
+                vals.insert("<variant>".into(), json!(format!("ERR: {e}")));
+            }
+        }
+    }
+    Some(vals)
+}
+
 fn read_back(s: &Scn, path: &str) -> Result<(), String> {
     let reader: jbk::Reader = jbk::FileSource::open(path)
         .map_err(|e| e.to_string())?
